@@ -143,3 +143,79 @@ def _ios_minor_above_9(violation, m):
     inp = violation.get("input") or {}
     return (violation.get("law") == "newer_superset" and inp.get("family") == "ios"
             and isinstance(inp.get("v"), list) and len(inp["v"]) == 2 and inp["v"][1] > 9)
+
+# --------------------------------------------------------------------------- C17 / C18 (metadata.py)
+def _c17_data(v):
+    d = v["input"]["data"]
+    return dict((k, x) for k, x in d) if isinstance(d, list) else d
+
+
+def _c17_escape_classes(data):
+    """exception classes other than the documented one that a component parser raises for a value of ``data``"""
+    from packaging import licenses, requirements, specifiers, utils, version
+    out = set()
+
+    def probe(fn, xs, caught):
+        for x in xs if isinstance(xs, list) else [xs]:
+            if isinstance(x, str):
+                try:
+                    fn(x)
+                except caught:
+                    pass
+                except Exception as e:
+                    out.add(type(e).__name__)
+    probe(lambda s: utils.canonicalize_name(s, validate=True), data.get("name"), utils.InvalidName)
+    probe(lambda s: utils.canonicalize_name(s, validate=True), data.get("provides_extra"), utils.InvalidName)
+    probe(version.parse, data.get("version"), version.InvalidVersion)
+    probe(specifiers.SpecifierSet, data.get("requires_python"), specifiers.InvalidSpecifier)
+    probe(requirements.Requirement, data.get("requires_dist"), requirements.InvalidRequirement)
+    probe(licenses.canonicalize_license_expression, data.get("license_expression"), ValueError)
+    return out
+
+
+def _raised(v):
+    import re
+    m = re.search(r"raises (\w+)", v.get("detail") or "")
+    return m.group(1) if m else None
+
+
+@matcher("c17_inherited_component_escape")
+def _c17_inherited_component_escape(v, m):
+    """a component parser raises an undocumented exception for one of the values (C11 defects of that component)"""
+    return _raised(v) is not None and _raised(v) in _c17_escape_classes(_c17_data(v))
+
+
+@matcher("c17_from_email_unparsed_first")
+def _c17_from_email_unparsed_first(v, m):
+    """from_email raises the group of unparsed keys alone, without validating the parsed fields"""
+    from packaging import metadata as M
+    from gen import metadata as G
+    from props.C18 import expected_parse
+    doc = v["input"]["doc"]
+    exp = expected_parse(doc)
+    if exp is None or not exp[1]:
+        return False
+    try:
+        M.Metadata.from_email(G.build_doc(doc))
+    except M.ExceptionGroup as g:
+        return {getattr(e, "field", "") for e in g.exceptions} == set(exp[1])
+    except Exception:
+        return False
+    return False
+
+
+def _c18_text(v):
+    from gen import metadata as G
+    return G.build_doc(v["input"]["doc"])
+
+
+@matcher("c18_str_surrogate_header")
+def _c18_str_surrogate_header(v, m):
+    """str input with a surrogate code point in a header value: email.header raises UnicodeEncodeError"""
+    if _raised(v) != "UnicodeEncodeError":
+        return False
+    text = _c18_text(v)
+    if not isinstance(text, str):
+        return False
+    head = text.split("\n\n", 1)[0].split("\r\n\r\n", 1)[0]
+    return any(0xD800 <= ord(c) <= 0xDFFF for c in head)
